@@ -985,6 +985,11 @@ impl<'a, 'b> Gen<'a, 'b> {
                 return s;
             }
         }
+        if self.p.dynamic_dims && self.t.chance(12) {
+            if let Some(s) = self.lookup_table() {
+                return s;
+            }
+        }
         if self.p.uninit_decl && self.p.elementwise_first && self.p.call_bias > 0 && depth > 0 && self.t.chance(14) {
             if let Some(s) = self.delayed_array_split() {
                 return s;
@@ -1264,6 +1269,78 @@ impl<'a, 'b> Gen<'a, 'b> {
         let body = Stmt::Block { id: self.ids.next(), stmts: vec![w1, rd, w2] };
         let for_stmt = Stmt::For { id: self.ids.next(), init: Box::new(init), cond, step: Box::new(step), body: Box::new(body) };
         Some(Stmt::Block { id: self.ids.next(), stmts: vec![decl, for_stmt] })
+    }
+
+    /// `{ var zl[2]; zl[0] = 3; zl[1] = 5; var zk = e; out <== zl[zk % 2]; }` (or `x = zl[zk % 2]`): a local
+    /// whose only use is the position at which a local table is read.
+    fn lookup_table(&mut self) -> Option<Stmt> {
+        if self.control_ctx {
+            return None;
+        }
+        let sigs: Vec<VarInfo> = if self.p.template && self.p.signals && self.in_loop == 0 {
+            self.visible()
+                .into_iter()
+                .filter(|v| matches!(&v.ty, Ty::Sig(k) if *k != SigKind::Input) && !self.assigned.contains(&v.key))
+                .collect()
+        } else {
+            vec![]
+        };
+        let scalars: Vec<VarInfo> =
+            self.local_targets().into_iter().filter(|v| v.ty == Ty::Var && self.assigned.contains(&v.key)).collect();
+        if sigs.is_empty() && scalars.is_empty() {
+            return None;
+        }
+        let zl = self.fresh_name("zl");
+        let zk = self.fresh_name("zk");
+        let two = self.small_literal(2);
+        let decl = Stmt::Decl {
+            id: self.ids.next(),
+            kind: DeclKind::Var,
+            syms: vec![DeclSym { id: self.ids.next(), sub_id: self.ids.next(), name: zl.clone(), dims: vec![two], init: None }],
+            init_op: AssignOp::Var,
+        };
+        let a = 1 + self.t.below(7) as u64;
+        let b = a + 1 + self.t.below(7) as u64;
+        let mut stmts = vec![decl];
+        for (k, v) in [(0u64, a), (1, b)] {
+            let ix = self.small_literal(k);
+            let lhs = Expr::Var { id: self.ids.next(), name: zl.clone(), access: vec![Access::Index(ix)] };
+            let rhs = self.small_literal(v);
+            stmts.push(Stmt::Assign { id: self.ids.next(), lhs, op: AssignOp::Var, rhs, reversed: false });
+        }
+        // the position: an expression over locals and parameters that may steer control flow
+        let saved = self.control_ctx;
+        self.control_ctx = true;
+        let e = self.expr(1);
+        self.control_ctx = saved;
+        stmts.push(Stmt::Decl {
+            id: self.ids.next(),
+            kind: DeclKind::Var,
+            syms: vec![DeclSym { id: self.ids.next(), sub_id: self.ids.next(), name: zk.clone(), dims: vec![], init: Some(e) }],
+            init_op: AssignOp::Var,
+        });
+        let two = self.small_literal(2);
+        let pos = Expr::Infix {
+            id: self.ids.next(),
+            op: Op::Mod,
+            l: Box::new(Expr::Var { id: self.ids.next(), name: zk.clone(), access: vec![] }),
+            r: Box::new(two),
+        };
+        let read = Expr::Var { id: self.ids.next(), name: zl.clone(), access: vec![Access::Index(pos)] };
+        if !sigs.is_empty() && self.t.chance(170) {
+            let v = sigs[self.t.below(sigs.len())].clone();
+            let op = if self.t.chance(128) { AssignOp::Constrain } else { AssignOp::Signal };
+            let lhs = Expr::Var { id: self.ids.next(), name: v.name.clone(), access: vec![] };
+            self.assigned.insert(v.key);
+            stmts.push(Stmt::Assign { id: self.ids.next(), lhs, op, rhs: read, reversed: false });
+        } else if !scalars.is_empty() {
+            let x = scalars[self.t.below(scalars.len())].clone();
+            let lhs = Expr::Var { id: self.ids.next(), name: x.name.clone(), access: vec![] };
+            stmts.push(Stmt::Assign { id: self.ids.next(), lhs, op: AssignOp::Var, rhs: read, reversed: false });
+        } else {
+            return None;
+        }
+        Some(Stmt::Block { id: self.ids.next(), stmts })
     }
 
     /// `{ var zb[2]; var zt = <data>; zb[0] = zt op e; if (c) { zb[1] = lit; x = zb[0]; } }`: the first
